@@ -389,6 +389,12 @@ func checkC01(e *Engine, r *Report) {
 					}
 				case *ssa.MakeChan:
 					what = "channel creation"
+				case ssa.CallInstruction:
+					// locks / once / atomics guard memory that is shared between goroutines and outlives the call: process-lifetime,
+					// node-local state (a cache filled by whichever request came first) in the middle of consensus code
+					if fo := calleeObj(x); fo != nil && fo.Pkg() != nil && (fo.Pkg().Path() == "sync" || fo.Pkg().Path() == "sync/atomic") {
+						what = "use of " + fo.Pkg().Path() + "." + fo.Name() + " (shared in-process state)"
+					}
 				}
 				if what != "" {
 					n++
